@@ -35,13 +35,12 @@ LEVEL = 'model_checking'
 A = ast
 ASC, DESC = A.Ordering.ASC, A.Ordering.DESC
 
-KVALS = [None, 'a', 'b']
+KVALS = [None, '', 'b']      # '' and 0: falsy values that are NOT NULL (they sort after NULL, and -3 < 0)
 
 
 def vvals(seed):
-    pool = [(1, 2), (2, 7), (-3, 1), (5, 12)]
-    a, b = pool[seed % len(pool)]
-    return [None, a, b]
+    pool = [-3, 2, -1, 7]
+    return [None, 0, pool[seed % len(pool)]] if seed % 2 == 0 else [None, pool[seed % len(pool)], 0]
 
 
 def tables(L, seed):
@@ -123,6 +122,21 @@ def statements(K, tier):
     return out
 
 
+def plain_statements():
+    """No ORDER BY: DISTINCT / LIMIT alone and together (LIMIT applies to the de-duplicated rows, in source order)."""
+    out = []
+    for tname, targets in (('k', [(col('k'), 'k')]), ('kv', [(col('k'), 'k'), (col('v'), 'v')]), ('id', [(col('id'), 'id'), (col('k'), 'k')]),
+                           ('expr', [(F('length', col('k')), 'lk')])):
+        for distinct in (None, True):
+            for limit in (None, 0, 1, 2, 99):
+                if distinct is None and limit is None:
+                    continue
+                out.append((f'plain-{tname}|0||{"distinct" if distinct else ""}|{"limit" if limit is not None else ""}#{limit}',
+                            select(targets, from_='t', distinct=distinct, limit=limit)))
+        out.append((f'plain-{tname}-where|0||distinct|limit#1', select(targets, from_='t', where=A.IsNotNull(col('v')), distinct=True, limit=1)))
+    return out
+
+
 def agg_statements():
     s, c = F('sum', col('v')), F('count', A.Asterisk())
     keys = {
@@ -168,7 +182,7 @@ def run_one(conn, rows, tag, stmt, acc, extra):
         return
     acc.count('rows_compared', len(exp))
     if [tuple(map(typed, r)) for r in got] != [tuple(map(typed, r)) for r in exp]:
-        form, n, dirs, dis, lim = tag.split('|')
+        form, n, dirs, dis, lim = tag.split('#')[0].split('|')
         pat = 'uniform' if len(set(dirs)) <= 1 else 'mixed-directions'
         acc.violation(f'order:{form}|keys={n}|{pat}|{dis}|{lim}', f'{show(stmt)} on rows {rows!r}: got {got!r}, reference {exp!r}',
                       dict(extra, tag=tag, rows=jsonable(rows)))
@@ -185,7 +199,7 @@ def run_one(conn, rows, tag, stmt, acc, extra):
 
 def sweep1(shard, nshards, L, K, tier, seed, only_len=None):
     acc = Acc()
-    stmts = statements(K, tier) + agg_statements()
+    stmts = statements(K, tier) + agg_statements() + plain_statements()
     for idx, rows in enumerate(tables(L, seed)):
         if not mine(idx, shard, nshards):
             continue
@@ -361,7 +375,7 @@ def replay(c):
         rows = [tuple(r) for r in unjson(c['rows'])]
         table = HTable(COLS, rows)
         conn = connect(t=table, postings=table)
-        for tag, stmt in statements(c['K'], 'thorough') + agg_statements():
+        for tag, stmt in statements(c['K'], 'thorough') + agg_statements() + plain_statements():
             if tag == c['tag']:
                 run_one(conn, rows, tag, stmt, acc, {'kind': 'stmt', 'K': c['K'], 'tier': c['tier']})
                 break
